@@ -963,6 +963,11 @@ def poolchain(F, R):
 
 SEQ_NAMES = {'m_cur_seq', 'cur_seq', 'cur_seq_cnt', 'm_seq_cnt', 'seq_cnt'}
 
+def unwrap_(f, i):
+    x = f.nodes[i] if i else None
+    while x and x['k'] in ('icast', 'cast', 'paren'): x = f.nodes[x['e']]
+    return x
+
 @rule('seqtype')
 def seqtype(F, R):
     """C05.seq-type: the sequence tag stored with a deferred event and the machine's current-sequence counter are compared for
@@ -989,6 +994,27 @@ def seqtype(F, R):
                 R.find('C05.seq-type', f, 'width', 'sequence tags compared with different types (%s vs %s) in %s' % (lt, rt, f.expr(i)), where=f.at(i))
         if hit:
             R.seen(f); R.anchor('seq-compare:' + backend_of(f))
+        # C05.seq-order: the counter is incremented once per handled event and is 8 bits wide: it wraps every 256 handled events.
+        # Equality is wrap-proof; an ORDERING of two raw stamps is not (127 > -128): where stamps are ordered - to put re-queued entries
+        # back in front of the untouched ones - the comparison must go through their difference (modulo arithmetic)
+        for i, n in enumerate(f.nodes):
+            if not n or n['k'] != 'bin' or n['op'] not in ('<', '>', '<=', '>='): continue
+            sides = []
+            for side in (n['lhs'], n['rhs']):
+                x = f.nodes[side]
+                while x and x['k'] in ('icast', 'cast', 'paren'): x = f.nodes[x['e']]
+                sides.append(x)
+            def stamp(x):
+                if not x or x['k'] != 'mem' or x['n'] != 'second': return False
+                from facts import strip_cvref
+                return strip_cvref(F.strs[x['t']]) in ('char', 'signed char', 'unsigned char') if 't' in x else False
+            if all(stamp(x) for x in sides):
+                R.seen(f); R.anchor('seq-order:' + backend_of(f))
+                R.ob('C05.seq-order', False, {'func': f.q, 'compare': f.expr(i)})
+                R.find('C05.seq-order', f, 'raw-order', 'two sequence stamps of the 8-bit wrapping counter are ordered directly (%s): at the wrap (127 -> -128, reached after 127 handled events) the re-queued entries sort behind the untouched ones and deferred events change their order' % f.expr(i), where=f.at(i))
+            elif any(stamp(x) for x in sides) or any(x and x['k'] == 'bin' and x['op'] == '-' and all(stamp(y) for y in [unwrap_(f, x['lhs']), unwrap_(f, x['rhs'])]) for x in sides):
+                R.seen(f); R.anchor('seq-order:' + backend_of(f))
+                R.ob('C05.seq-order', True, {'func': f.q, 'compare': f.expr(i)})
 
 @rule('seqproto')
 def seqproto(F, R):
